@@ -48,6 +48,14 @@ type Ptr struct {
 type Arr struct {
 	Name string
 	Elem types.Type
+	Zero bool // content starts as all zero values (local fixed-size arrays)
+}
+
+// ArrayV is a fixed-size array value with more than 8 elements: its elements live in a backing
+// array (shared with the slices taken of it through a pointer).
+type ArrayV struct {
+	Arr *Arr
+	N   int64
 }
 
 // ArrContent: for element types that flatten to SMT leaves, Leaves holds one SMT array term
